@@ -53,3 +53,24 @@ contract(B + 'calculate_likelihood_and_derivatives', ['C15', 'C02', 'C04'],
                                                      "forall(lambda q: iterfile_lines()[q] == LINE, 0, len(x)))".replace('LINE', LINE),
          },
          invariants={1: {'clauses': {'lines_so_far': "len(file_lines(pf)) == _k and forall(lambda q: file_lines(pf)[q] == LINE, 0, _k)".replace('LINE', LINE)}}})
+
+# the body of the (otherwise pure, assumed) file-name function: the name contains the WHOLE model name, so different model names
+# give different files (injectivity of the f-string in its hole is part of the string model A-STR-TOK)
+contract(B + '_save_iterations_file_name', 'C15', self_class='BIOGEME', label='BIOGEME._save_iterations_file_name(body)',
+         types={}, modifies=[],
+         ensures={'whole_model_name': "result == f'__{self.modelName}.iter'"},
+         replay="""
+import warnings; warnings.simplefilter('ignore')
+import pandas as pd, biogeme.database as db
+from biogeme.biogeme import BIOGEME
+from biogeme.parameters import Parameters
+from biogeme.expressions import Beta, Variable
+names = ['quad_v1.0', 'quad_v1.5', 'a.b.c', 'plain', 'dir/name', 'x.py']
+got = []
+for nm in names:
+    bg = BIOGEME(db.Database('d', pd.DataFrame({'x': [1.0, 2.0]})), Beta('b', 0, None, None, 0) * Variable('x'), parameters=Parameters())
+    bg.modelName = nm
+    got.append(bg._save_iterations_file_name())
+violated = got != [f'__{nm}.iter' for nm in names]
+detail = str(list(zip(names, got)))
+""")
